@@ -265,7 +265,7 @@ def gen_traffic(rng, i, tier, *, nclients=None, retries=(0, 1, -1), n_msgs=None,
             # the application sends from inside its connect callback: the messages share a datagram with the
             # challenge response, which the server still handles on its handshake path
             op["on_connect"] = [{"len": rng.choice([0, 9, 40, 700, limits(mtu)["cap1"], 3000]), "retry": rng.choice(retries),
-                                 "cb": rng.random() < cb_p, "api": "send", "kind": 0} for _ in range(rng.choice([1, 2, 3]))]
+                                 "cb": rng.random() < cb_p, "api": "send", "kind": 0, "on_connect": True} for _ in range(rng.choice([1, 2, 3]))]
         plan.append(op)
     t_start = 0.8 + 4 * cfg["latency"] + 2 * cfg["jitter"] + 3 * max(cl["dt"] for cl in cfg["clients"])
     t_fault0 = t_start + rng.random() * 1.0
@@ -274,6 +274,7 @@ def gen_traffic(rng, i, tier, *, nclients=None, retries=(0, 1, -1), n_msgs=None,
         cfg["phases"] = fault_phase(rng, t_fault0, t_fault1, heavy=heavy)
     m = n_msgs or rng.choice([3, 6, 12, 25, 60])
     big = big or (200000 if tier == "thorough" else 40000)
+    rtt0 = 2 * (cfg["latency"] + cfg["jitter"]) + 2 * cfg["reactor_lag"] + 2 * max(cfg["server"]["interval"], 1 / 60)
     burst_t = None
     # offered load stays within what the sender can put on the wire in ~2 s (one datagram per tick):
     # an overloaded sender is an application problem, not a fault the properties quantify over
@@ -295,9 +296,12 @@ def gen_traffic(rng, i, tier, *, nclients=None, retries=(0, 1, -1), n_msgs=None,
         op["c"] = c
         is_server = server_sends and rng.random() < 0.4
         who = ("S%d" if is_server else "c%d") % c
-        if length > budget[who]:
-            length = op["len"] = rng.randrange(0, limits(mtu)["cap1"] + 1) if budget[who] > limits(mtu)["cap1"] else rng.randrange(0, 64)
-        budget[who] -= length * (3 if retry == 1 else 1)
+        # a message sent with a retry mode is re-sent every 0.1 s until its ack arrives: it costs ~RTT/0.1 copies
+        factor = (1 + int(rtt0 / 0.1)) if retry != 0 else 1
+        if length * factor > budget[who]:
+            cap = int(budget[who] / factor)
+            length = op["len"] = rng.randrange(0, min(limits(mtu)["cap1"], max(cap, 1)) + 1) if cap > 64 else rng.randrange(0, 64)
+        budget[who] -= length * factor
         if is_server:
             op["op"] = "ssend"
             op["api"] = "send_guaranteed" if retry == -1 and rng.random() < 0.5 else "send"
